@@ -11,8 +11,8 @@ use midnight_circuits::{
     types::{AssignedBit, AssignedByte, AssignedNative, Instantiable},
 };
 use midnight_curves::{
-    k256::{Fp as SecpFp, Fq as SecpFq, K256},
-    Fp as BlsFp, G1Projective, JubjubExtended, JubjubSubgroup,
+    k256::K256,
+    G1Projective, JubjubExtended, JubjubSubgroup,
 };
 use midnight_proofs::{
     circuit::{Layouter, Value},
@@ -118,7 +118,7 @@ where
     std.constrain_as_committed_public_input(layouter, &x)
 }
 
-fn synth_step(std: &ZkStdLib, layouter: &mut impl Layouter<F>, step: &Step, v: Value<Item>) -> Result<(), Error> {
+pub(crate) fn synth_step(std: &ZkStdLib, layouter: &mut impl Layouter<F>, step: &Step, v: Value<Item>) -> Result<(), Error> {
     let path = step.path;
     match &step.proto {
         Item::Bit(k) => match path {
@@ -142,50 +142,24 @@ fn synth_step(std: &ZkStdLib, layouter: &mut impl Layouter<F>, step: &Step, v: V
         Item::SecpBase(k) => {
             let chip = std.secp256k1_curve().base_field_chip();
             match path {
-                // d0: x = (x - 1) + 1, limbs not normalised when exposed
-                Path::Derived(0) => {
-                    let y = chip.assign(layouter, pick!(v, SecpBase).map(|x| x - SecpFp::ONE))?;
-                    let x = chip.add_constant(layouter, &y, SecpFp::ONE)?;
-                    chip.constrain_as_public_input(layouter, &x)
-                }
-                // d1: x = -(-x)
-                Path::Derived(_) => {
-                    let y = chip.assign(layouter, pick!(v, SecpBase).map(|x| -x))?;
-                    let x = chip.neg(layouter, &y)?;
-                    chip.constrain_as_public_input(layouter, &x)
-                }
+                // exposure after in-circuit arithmetic: see `ff_derived`
+                Path::Derived(n) => ff_derived(chip, layouter, pick!(v, SecpBase), n),
                 _ => expose(chip, layouter, pick!(v, SecpBase), path, *k),
             }
         }
         Item::SecpScalar(k) => {
             let chip = std.secp256k1_scalar();
             match path {
-                Path::Derived(0) => {
-                    let y = chip.assign(layouter, pick!(v, SecpScalar).map(|x| x - SecpFq::ONE))?;
-                    let x = chip.add_constant(layouter, &y, SecpFq::ONE)?;
-                    chip.constrain_as_public_input(layouter, &x)
-                }
-                Path::Derived(_) => {
-                    let y = chip.assign(layouter, pick!(v, SecpScalar).map(|x| -x))?;
-                    let x = chip.neg(layouter, &y)?;
-                    chip.constrain_as_public_input(layouter, &x)
-                }
+                // exposure after in-circuit arithmetic: see `ff_derived`
+                Path::Derived(n) => ff_derived(chip, layouter, pick!(v, SecpScalar), n),
                 _ => expose(chip, layouter, pick!(v, SecpScalar), path, *k),
             }
         }
         Item::BlsBase(k) => {
             let chip = std.bls12_381_curve().base_field_chip();
             match path {
-                Path::Derived(0) => {
-                    let y = chip.assign(layouter, pick!(v, BlsBase).map(|x| x - BlsFp::ONE))?;
-                    let x = chip.add_constant(layouter, &y, BlsFp::ONE)?;
-                    chip.constrain_as_public_input(layouter, &x)
-                }
-                Path::Derived(_) => {
-                    let y = chip.assign(layouter, pick!(v, BlsBase).map(|x| -x))?;
-                    let x = chip.neg(layouter, &y)?;
-                    chip.constrain_as_public_input(layouter, &x)
-                }
+                // exposure after in-circuit arithmetic: see `ff_derived`
+                Path::Derived(n) => ff_derived(chip, layouter, pick!(v, BlsBase), n),
                 _ => expose(chip, layouter, pick!(v, BlsBase), path, *k),
             }
         }
@@ -199,6 +173,16 @@ fn synth_step(std: &ZkStdLib, layouter: &mut impl Layouter<F>, step: &Step, v: V
                     chip.constrain_as_public_input(layouter, &p)
                 }
                 // d1: p = (p - g) + g  (complete addition; yields a computed identity for p = id)
+                // d2: p = ((p - 2g) + g) + g: two complete additions in a row (p = g goes through a
+                // computed identity, p = 2g starts from an assigned identity, p = id ends in a computed one)
+                Path::Derived(2) => {
+                    let g = K256::generator();
+                    let q = chip.assign(layouter, pick!(v, SecpPoint).map(|p| p - g - g))?;
+                    let gg = chip.assign_fixed(layouter, g)?;
+                    let r = chip.add(layouter, &q, &gg)?;
+                    let p = chip.add(layouter, &r, &gg)?;
+                    chip.constrain_as_public_input(layouter, &p)
+                }
                 Path::Derived(_) => {
                     let g = K256::generator();
                     let q = chip.assign(layouter, pick!(v, SecpPoint).map(|p| p - g))?;
@@ -217,6 +201,16 @@ fn synth_step(std: &ZkStdLib, layouter: &mut impl Layouter<F>, step: &Step, v: V
                     let p = chip.negate(layouter, &q)?;
                     chip.constrain_as_public_input(layouter, &p)
                 }
+                // d2: p = ((p - 2g) + g) + g: two complete additions in a row (p = g goes through a
+                // computed identity, p = 2g starts from an assigned identity, p = id ends in a computed one)
+                Path::Derived(2) => {
+                    let g = G1Projective::generator();
+                    let q = chip.assign(layouter, pick!(v, BlsPoint).map(|p| p - g - g))?;
+                    let gg = chip.assign_fixed(layouter, g)?;
+                    let r = chip.add(layouter, &q, &gg)?;
+                    let p = chip.add(layouter, &r, &gg)?;
+                    chip.constrain_as_public_input(layouter, &p)
+                }
                 Path::Derived(_) => {
                     let g = G1Projective::generator();
                     let q = chip.assign(layouter, pick!(v, BlsPoint).map(|p| p - g))?;
@@ -233,6 +227,16 @@ fn synth_step(std: &ZkStdLib, layouter: &mut impl Layouter<F>, step: &Step, v: V
                 Path::Derived(0) => {
                     let q = chip.assign(layouter, pick!(v, JPoint).map(|p| -p))?;
                     let p = chip.negate(layouter, &q)?;
+                    chip.constrain_as_public_input(layouter, &p)
+                }
+                // d2: p = ((p - 2g) + g) + g: two complete additions in a row (p = g goes through a
+                // computed identity, p = 2g starts from an assigned identity, p = id ends in a computed one)
+                Path::Derived(2) => {
+                    let g = JubjubSubgroup::generator();
+                    let q = chip.assign(layouter, pick!(v, JPoint).map(|p| p - g - g))?;
+                    let gg = chip.assign_fixed(layouter, g)?;
+                    let r = chip.add(layouter, &q, &gg)?;
+                    let p = chip.add(layouter, &r, &gg)?;
                     chip.constrain_as_public_input(layouter, &p)
                 }
                 Path::Derived(_) => {
@@ -310,6 +314,61 @@ fn synth_step(std: &ZkStdLib, layouter: &mut impl Layouter<F>, step: &Step, v: V
             }
         }
     }
+}
+
+/// Exposure of an emulated field element AFTER in-circuit arithmetic (lazy, non-normalised
+/// representations), for every emulated field alike:
+///  * d0: `x = (x - 1) + 1` (add_constant);   d1: `x = -(-x)`;
+///  * d2: chain of lazy sums `x = ((a + b) + c) + b - b` with `b = x^2`, `c = -1`, `a = x - b - c`;
+///  * d3: product then lazy sum/difference `x = (u * 2 + w) - 0` with `u = x + 1`, `w = -x - 2`;
+///  * d4: linear combination with large coefficients `x = (p-1)*a + 3*b + 7` with `a = -x`, `b = -2`
+///        (so `(p-1)*a = x`, `3*b + 7 = 1`, hence the element is `x + 1` ... minus one again by sub).
+fn ff_derived<T, Ch>(chip: &Ch, layouter: &mut impl Layouter<F>, x: Value<T::Element>, which: u32) -> Result<(), Error>
+where
+    T: Instantiable<F> + midnight_circuits::types::InnerValue + Clone,
+    T::Element: ff::PrimeField,
+    Ch: ArithInstructions<F, T> + PublicInputInstructions<F, T>,
+{
+    let one = <T::Element as Field>::ONE;
+    let two = one + one;
+    let z = match which {
+        0 => {
+            let y = chip.assign(layouter, x.map(|x| x - one))?;
+            chip.add_constant(layouter, &y, one)?
+        }
+        1 => {
+            let y = chip.assign(layouter, x.map(|x| -x))?;
+            chip.neg(layouter, &y)?
+        }
+        2 => {
+            let b = chip.assign(layouter, x.map(|x| x * x))?;
+            let c = chip.assign(layouter, Value::known(-one))?;
+            let a = chip.assign(layouter, x.map(|x| x - x * x + one))?;
+            let s = chip.add(layouter, &a, &b)?;
+            let s = chip.add(layouter, &s, &c)?;
+            let s = chip.add(layouter, &s, &b)?;
+            chip.sub(layouter, &s, &b)?
+        }
+        3 => {
+            let u = chip.assign(layouter, x.map(|x| x + one))?;
+            let v = chip.assign_fixed(layouter, two)?;
+            let w = chip.assign(layouter, x.map(|x| -x - two))?;
+            let zero = chip.assign_fixed(layouter, <T::Element as Field>::ZERO)?;
+            let m = chip.mul(layouter, &u, &v, None)?;
+            let s = chip.add(layouter, &m, &w)?;
+            chip.sub(layouter, &s, &zero)?
+        }
+        _ => {
+            let a = chip.assign(layouter, x.map(|x| -x))?;
+            let b = chip.assign(layouter, Value::known(-two))?;
+            let three = two + one;
+            let seven = three + three + one;
+            let lc = chip.linear_combination(layouter, &[(-one, a), (three, b)], seven)?;
+            let k = chip.assign_fixed(layouter, one)?;
+            chip.sub(layouter, &lc, &k)?
+        }
+    };
+    chip.constrain_as_public_input(layouter, &z)
 }
 
 fn pick_big(v: &Value<Item>) -> Value<BigUint> {
